@@ -72,6 +72,40 @@ theorem outcome_not_panic (t : Tree) (errors : Nat) (why : String) : T.outcome e
   · simp only [Tables.outcome, h]; split <;> simp
   · simp only [Tables.outcome, h']; split <;> simp
 
+/-- `errors_never_lost`: whatever the tree, one recorded error — a lexer or parser recognition error (every ANTLR report is recorded:
+`error_reporting_as_modelled`), a filter error, an unsupported rule, a literal conversion error — makes the outcome an ERROR, under
+both contexts: never (model, nil), never (nil, nil), never a panic; and an `ok` outcome means that nothing was recorded -/
+theorem errors_never_lost (t : Tree) (errors : Nat) (h : 0 < errors) : T.outcome errors t = .err ∧ TD.outcome errors t = .err := by
+  obtain ⟨⟨st, h1, _⟩, ⟨st', h2, _⟩⟩ := listener_no_panic t
+  have hne : errors ≠ 0 := by omega
+  constructor
+  · simp only [Tables.outcome, h1, hne, if_false]
+  · simp only [Tables.outcome, h2, hne, if_false]
+
+theorem outcome_ok_iff (t : Tree) (errors : Nat) : T.outcome errors t = .ok ↔ errors = 0 := by
+  obtain ⟨⟨st, h1, _⟩, _⟩ := listener_no_panic t
+  simp only [Tables.outcome, h1]
+  constructor
+  · intro h; split at h <;> first | assumption | cases h
+  · intro h; simp [h]
+
+/-- index of oC_IntegerLiteral in the regenerated rule table -/
+def ruleIntegerLiteral : Nat := Generated.Grammar.ruleNames.idxOf "oC_IntegerLiteral"
+
+/-- `int_literal_out_of_range_rejected`: a tree that contains an integer literal whose text is not a decimal digit string of value at
+most 2^63-1 (2^63 … 2^64-1 included: no wrap-around; hexadecimal and octal spellings) is never accepted, whatever else was or was
+not recorded: the outcome model counts `intLiteralErrors` among the errors (Driver/C08.lean) -/
+theorem int_literal_out_of_range_rejected (t : Tree) (others : Nat) (h : 0 < intLiteralErrors ruleIntegerLiteral t) :
+    T.outcome (others + intLiteralErrors ruleIntegerLiteral t) t = .err ∧ TD.outcome (others + intLiteralErrors ruleIntegerLiteral t) t = .err :=
+  errors_never_lost t _ (by omega)
+
+/-- non-vacuity: `RETURN 9223372036854775808` (the integer literal node alone) counts one error, `RETURN 9223372036854775807` none -/
+theorem int_literal_errors_sample :
+    ruleIntegerLiteral < Generated.Grammar.ruleNames.length ∧
+    intLiteralErrors ruleIntegerLiteral (.node ruleIntegerLiteral [.leaf "125:9223372036854775808"]) = 1 ∧
+    intLiteralErrors ruleIntegerLiteral (.node ruleIntegerLiteral [.leaf "125:18446744073709551615"]) = 1 ∧
+    intLiteralErrors ruleIntegerLiteral (.node ruleIntegerLiteral [.leaf "125:9223372036854775807"]) = 0 := by decide +kernel
+
 /-- `listener_no_panic_derivable`: every tree of `oC_Cypher` that follows the regenerated grammar (`wf`) and is
 syntactically complete (`conforms`) is walked without a panic: depth is 0 at every pop, every pop-as matches the pushed
 type, the stack never underflows. (The hypotheses are not needed by the proof: see `listener_no_panic`.) -/
